@@ -84,4 +84,25 @@ pub mod vlq;
 #[doc(hidden)]
 pub mod verif {
     pub use crate::decoder::{strip_junk_header, StripHeaderReader};
+
+    use std::cell::RefCell;
+
+    thread_local! {
+        static YIELD_HOOK: RefCell<Option<Box<dyn Fn(u8)>>> = const { RefCell::new(None) };
+    }
+
+    /// Installs (or removes) the calling thread's scheduler callback for the yield points in
+    /// `SourceView::get_line`.
+    pub fn set_yield_hook(hook: Option<Box<dyn Fn(u8)>>) {
+        YIELD_HOOK.with(|h| *h.borrow_mut() = hook);
+    }
+
+    /// Called at the yield points; a no-op unless the thread installed a callback.
+    pub(crate) fn yield_point(point: u8) {
+        YIELD_HOOK.with(|h| {
+            if let Some(f) = h.borrow().as_ref() {
+                f(point)
+            }
+        });
+    }
 }
